@@ -749,3 +749,48 @@ def channel_pairing(body, adt_suffix, sender_field, receiver_field):
     cs, cr = chan(so, 0), chan(ro, 1)
     ok = cs is not None and cs == cr and len(cs) == 1
     return ok, "sender from %s, receiver from %s" % (sorted(map(str, so)), sorted(map(str, ro)))
+
+
+def comparison_calls(body):
+    """[(block, term, fnref, is_eq)] for PartialEq::eq / ne calls"""
+    out = []
+    for b, t, fr in body.iter_calls():
+        if fr is not None and tail(fn_name(fr), 1) in ("eq", "ne") and len(t["args"]) >= 2:
+            out.append((b, t, fr, tail(fn_name(fr), 1) == "eq"))
+    return out
+
+
+def true_return_requirements(body):
+    """For a bool-returning function/closure: one entry per way of returning `true`, each the set of comparison-call
+    blocks that must have compared EQUAL on that path ({block: True}) or NOT equal ({block: False}).
+    Handles `if a != x { return false } .. true` as well as the short-circuit form `a == x && b == y`.
+    Returns None when some assignment to the return place is not understood."""
+    cmps = comparison_calls(body)
+    heads = []   # (head block, cmp block, equal?)
+    for (b, t, fr, is_eq) in cmps:
+        for (sb, tt, ft) in bool_arms(body, b):
+            heads.append((tt, b, is_eq))
+            heads.append((ft, b, not is_eq))
+    out = []
+    for b in sorted(body.reachable):
+        blk = body.blocks[b]
+        dom = {cb: eq for (h, cb, eq) in heads if body.dominates(h, b)}
+        for st in blk["stmts"]:
+            if st["k"] == "assign" and st["place"]["l"] == 0 and not st["place"]["p"]:
+                rv = st["rv"]
+                v = const_val(rv["use"]) if "use" in rv else None
+                if v == 1:
+                    out.append(dict(dom))
+                elif v == 0:
+                    continue
+                else:
+                    return None
+        t = blk["term"]
+        if t["k"] == "call" and t["dest"]["l"] == 0 and not t["dest"]["p"]:
+            hit = [c for c in cmps if c[0] == b]
+            if not hit:
+                return None
+            req = dict(dom)
+            req[b] = hit[0][3]
+            out.append(req)
+    return out
